@@ -52,7 +52,9 @@ def gen_value(rng, i, tier):
         return ('list', tuple(G.rand_scalar(rng, 6) for _ in range(w)))
     if fam == 5:
         # table keys needing care: empty, blanks, equal only after NFC is avoided (would be one entry), long
-        keys = ['', ' ', 'K', 'k', 'é', 'É', 'a b', '\t', 'x' * rng.choice([10, 300]), '\U0001f600', ';', "'", '"']
+        keys = ['', ' ', 'K', 'k', 'é', 'É', 'a b', '\t', 'x' * rng.choice([10, 300]), '\U0001f600', ';', "'", '"',
+                # compatibility look-alikes and a composition exclusion next to its truncation: all different keys
+                'x\u00b2', 'x2', '\u00b5m', '\u03bcm', '\ufb01x', 'fix', 'k\u0958', 'k\u0915']
         rng.shuffle(keys)
         keys = keys[:rng.randint(0, len(keys))]
         return ('table', tuple((k, G.rand_value(rng, 1, 3, 6)) for k in keys))
@@ -253,6 +255,11 @@ def run_case(ctx, i):
     src = None
     try:
         want = model_numbers(L, pv)
+        # the object handed to the storing call is itself what the generator asked for (the reference for everything
+        # read back below is taken from a library object; two keys folded into one there would go unnoticed)
+        if strip_numbers(want) != strip_numbers(D.canon(pv)):
+            raise Mismatch('readback:source-object:%s' % pv[0], 'the value object built for the test already differs from the value asked for: %s'
+                           % D.first_difference(strip_numbers(want), strip_numbers(D.canon(pv)), 'value'))
         if path == 'parse':
             from .. import gen_cif
             w = gen_cif.Writer(rng, 2)
